@@ -85,6 +85,8 @@ method, because no additional init parameters are needed.
 """
 
 
+from copy import deepcopy
+
 from pywbem._nocasedict import NocaseDict
 
 from pywbem import CIMInstanceName, CIMInstance, CIMError, CIMClass, \
@@ -778,11 +780,13 @@ class InstanceWriteProvider(BaseProvider):
                     _format("Modified instance {0!A} does not exist in "
                             "namespace {1!A}. Modify Failed", path, ns))
 
-        # Modify the instance path for each namespace
+        # Modify the instance in each namespace. Each namespace gets its own
+        # copy of the instance, with the path for that namespace.
         for ns, path in modified_instance_paths.items():
             instance_store = self.cimrepository.get_instance_store(ns)
-            modified_instance.path = path
-            instance_store.update(modified_instance.path, modified_instance)
+            ns_instance = deepcopy(modified_instance)
+            ns_instance.path = path
+            instance_store.update(path, ns_instance)
 
     @staticmethod
     def create_new_instance_path(creation_class, new_instance, namespace):
